@@ -8,6 +8,13 @@ from engine.defuse import defuse_of, targets_of
 from engine.fold import UNKNOWN, EnumVal
 
 
+IDIOMS_NOTE = (
+    " In addition the repository idiom rules run on the modules this property is anchored in: SerializableEnum members are compared by "
+    "value, never with `is` (they are not singletons); no loop variable shadows a name that is still used after the loop; no unresolved "
+    "name beyond the nine triaged sites of the pinned tree."
+)
+
+
 def calls_named(fi, name, own=True):
     """calls in fi whose callee text equals `name` or whose attribute / bare name is `name`"""
     out = []
